@@ -1,7 +1,7 @@
 # Copyright (c) 2023 Graphcore Ltd. All rights reserved.
 import logging
 from dataclasses import astuple
-from typing import Any, Callable, Dict, List, Optional, Tuple, TypeVar
+from typing import Any, Callable, Dict, List, Tuple, TypeVar
 
 import torch.nn.functional as F
 from torch import Tensor, nn
@@ -22,63 +22,80 @@ FormatTuple = Tuple[int, int, str, int]
 
 # These functions currently have to be defined explicitly to make PyTorch happy
 # Creating temporary wrapped functions doesn't work...
+# The formats come first, so that the original call's args & kwargs pass through as given.
+def _quantise_operands(
+    fwd_format: FPFormat,
+    names: Tuple[str, ...],
+    args: Tuple[Any, ...],
+    kwargs: Dict[str, Any],
+) -> Tuple[List[Any], Dict[str, Any]]:
+    """Forward-quantise the named tensor operands, passed positionally or by keyword."""
+    new_args, new_kwargs = list(args), dict(kwargs)
+    for i, name in enumerate(names):
+        if i < len(new_args):
+            new_args[i] = fwd_format.quantise_fwd(new_args[i])
+        elif name in new_kwargs:
+            new_kwargs[name] = fwd_format.quantise_fwd(new_kwargs[name])
+    return new_args, new_kwargs
+
+
 def _quantised_linear(
-    input: Tensor,
-    weight: Tensor,
-    bias: Optional[Tensor],
     fwd_format_tuple: FormatTuple,
     bwd_format_tuple: FormatTuple,
+    *args: Any,
+    **kwargs: Any,
 ) -> Tensor:
     fwd_format = FPFormat(*fwd_format_tuple)
     bwd_format = FPFormat(*bwd_format_tuple)
-    input = fwd_format.quantise_fwd(input)
-    weight = fwd_format.quantise_fwd(weight)
-    output = F.linear(input, weight, bias)
+    args, kwargs = _quantise_operands(  # type:ignore[assignment]
+        fwd_format, ("input", "weight"), args, kwargs
+    )
+    output = F.linear(*args, **kwargs)
     return bwd_format.quantise_bwd(output)
 
 
 def _quantised_u_linear(
-    input: Tensor,
-    weight: Tensor,
-    bias: Optional[Tensor],
     fwd_format_tuple: FormatTuple,
     bwd_format_tuple: FormatTuple,
-    constraint: Optional[str] = "to_output_scale",
+    *args: Any,
+    **kwargs: Any,
 ) -> Tensor:
     fwd_format = FPFormat(*fwd_format_tuple)
     bwd_format = FPFormat(*bwd_format_tuple)
-    input, weight = (fwd_format.quantise_fwd(t) for t in (input, weight))
-    output = U.linear(input, weight, bias, constraint)
+    args, kwargs = _quantise_operands(  # type:ignore[assignment]
+        fwd_format, ("input", "weight"), args, kwargs
+    )
+    output = U.linear(*args, **kwargs)
     return bwd_format.quantise_bwd(output)
 
 
 def _quantised_scaled_dot_product_attention(
-    query: Tensor,
-    key: Tensor,
-    value: Tensor,
     fwd_format_tuple: FormatTuple,
     bwd_format_tuple: FormatTuple,
+    *args: Any,
     **kwargs: Any,
 ) -> Tensor:
     fwd_format = FPFormat(*fwd_format_tuple)
     bwd_format = FPFormat(*bwd_format_tuple)
-    query, key, value = (fwd_format.quantise_fwd(t) for t in (query, key, value))
-    output = F.scaled_dot_product_attention(query, key, value, **kwargs)
+    args, kwargs = _quantise_operands(  # type:ignore[assignment]
+        fwd_format, ("query", "key", "value"), args, kwargs
+    )
+    output = F.scaled_dot_product_attention(*args, **kwargs)
     return bwd_format.quantise_bwd(output)
 
 
 def _quantised_u_scaled_dot_product_attention(
-    query: Tensor,
-    key: Tensor,
-    value: Tensor,
     fwd_format_tuple: FormatTuple,
     bwd_format_tuple: FormatTuple,
+    *args: Any,
     **kwargs: Any,
 ) -> Tensor:
     fwd_format = FPFormat(*fwd_format_tuple)
     bwd_format = FPFormat(*bwd_format_tuple)
-    query, key, value = (fwd_format.quantise_fwd(t) for t in (query, key, value))
-    output = U.scaled_dot_product_attention(query, key, value, **kwargs)
+    args, kwargs = _quantise_operands(  # type:ignore[assignment]
+        fwd_format, ("query", "key", "value"), args, kwargs
+    )
+    output = U.scaled_dot_product_attention(*args, **kwargs)
     return bwd_format.quantise_bwd(output)
 
 
@@ -97,19 +114,14 @@ def _replace_with_quantised(
     bwd_format: FPFormat,
 ) -> None:
     # Ideally we'd pass the formats as kwargs, but it currently causes a torch fx bug.
-    # This workaround will suffice for now...
-    args = [*node.args]
-    if len(node.args) == 2:  # pragma: no cover
-        args.append(None)
-    # Breaks when I pass in FPFormat objects, so convert to tuple and back
-    args = (
-        args[:3] + [astuple(fwd_format), astuple(bwd_format)] + args[3:]
-    )
+    # Breaks when I pass in FPFormat objects, so convert to tuple and back.
+    # The formats are prepended: the node's own args and kwargs are left as they were.
+    args = (astuple(fwd_format), astuple(bwd_format), *node.args)
 
     assert callable(node.target)
     quantised_fn = _replacement_map[node.target]
     logger.info("quantising function: %s", node)
-    replace_node_with_function(graph, node, quantised_fn, args=tuple(args))
+    replace_node_with_function(graph, node, quantised_fn, args=args)
 
 
 def _quantisation_backend(fwd_format: FPFormat, bwd_format: FPFormat) -> Backend:
